@@ -50,7 +50,7 @@ def expected_rows(objs, dao):
     return counts
 
 
-def persist_and_reload(root, load_cls_of):
+def persist_and_reload(root, load_cls_of, marker="auto"):
     """returns (restored root, actual row counts, expected row counts)"""
     from sqlalchemy import func, select
     from sqlalchemy.orm import Session
@@ -69,8 +69,9 @@ def persist_and_reload(root, load_cls_of):
         s.commit()
     with Session(engine) as s2:  # a fresh session: nothing comes from the identity map of the inserting one
         load_cls = load_cls_of(dao)
-        marker = "tag" if isinstance(root, M.Node) else "number"
-        rows = [r for r in s2.scalars(select(load_cls)).all() if getattr(r, marker) == getattr(root, marker)]
+        if marker == "auto":
+            marker = "tag" if isinstance(root, M.Node) else "number"
+        rows = [r for r in s2.scalars(select(load_cls)).all() if marker is None or getattr(r, marker) == getattr(root, marker)]
         if len(rows) != 1:
             return None, "expected exactly one row for the root, got %d" % len(rows), None
         back = rows[0].from_dao()
@@ -225,6 +226,68 @@ def drawing_case():
     return h
 
 
+def bag_case():
+    """an alternatively mapped container / its normally mapped subclasses inside a holder that also refers to the elements"""
+
+    def h(ctx):
+        backref = ctx.flag("backref")
+        pool = [(M.BackLeaf if backref else M.Leaf)(1), M.SubLeaf(2, 3)]
+        items = [pool[j] for j in [[0], [0, 1], [1, 0]][ctx.choice("items", 3)]]
+        kind = ctx.choice("bagclass", 3)
+        if kind:
+            sp = ctx.choice("spare", 3) - 1
+            kw = dict(label=4, spare=pool[sp] if sp >= 0 else None, more=[pool[j] for j in [[], [0], [1, 0]][ctx.choice("more", 3)]])
+            bag = M.LabeledBag(items, **kw) if kind == 1 else M.SealedBag(items, seal=5, **kw)
+        else:
+            bag = M.Bag(items)
+        if backref:
+            pool[0].home = bag
+        fav = ctx.choice("favourite", 3) - 1
+        root = M.Holder(bag, pool[fav] if fav >= 0 else None, [pool[j] for j in [[], [1], [0, 1]][ctx.choice("others", 3)]])
+        back, actual, expected = persist_and_reload(root, lambda dao: dao.HolderDAO, marker=None)
+        ctx.observe(type(bag).__name__, backref, fav)
+        ctx.note("nonempty", 1)
+        if back is None:
+            ctx.observe(actual)
+            return {"root-row-found": False}
+        r, terms = isomorphic(root, back, collections_as_sets=True)
+        if r is not True:
+            ctx.observe(str(r))
+        used = reachable(root)
+        n_leaves = sum(1 for o in used if isinstance(o, M.Leaf))
+        v = {"restored-graph-isomorphic": r is True}
+        # one row per distinct object: the leaves (in the table of their base class) and the one container
+        v["one-row-per-object"] = actual.get("LeafDAO", 0) == n_leaves and actual.get("BagMappedDAO", 0) == 1 and actual.get("HolderDAO", 0) == 1
+        if not v["one-row-per-object"]:
+            ctx.observe(actual)
+        return v
+
+    return h
+
+
+def car_case():
+    """two rows that refer to each other through one-to-one references that are not annotated Optional"""
+
+    def h(ctx):
+        c, e = M.Car(7), M.Engine(8)
+        if ctx.flag("car-has-engine"):
+            c.engine = e
+        if ctx.flag("engine-has-car"):
+            e.car = c
+        try:
+            back, actual, expected = persist_and_reload(c, lambda dao: dao.CarDAO, marker="plate")
+        except Exception as ex:
+            ctx.observe("persisting raised %s: %s" % (type(ex).__name__, str(ex)[:120]))
+            return {"persisting-does-not-raise": False}
+        ctx.note("nonempty", 1)
+        if back is None:
+            return {"root-row-found": False}
+        r, terms = isomorphic(c, back, collections_as_sets=True)
+        return {"restored-graph-isomorphic": r is True, "persisting-does-not-raise": True}
+
+    return h
+
+
 def album_case(max_strips):
     """objects whose alternative mapping builds mapped helper objects on the fly (nothing else holds them)"""
 
@@ -310,6 +373,8 @@ def cases(tier, seed):
                 cs.append(Case(nm + "|n=%d" % n, graph_case(n, with_vecs, fixed, nseq), key=nm, validate=0, timeout=900 if tier == "quick" else 3000, max_paths=300000))
     cs.append(Case("persist rich scalars", rich_case(tier != "quick"), validate=0, timeout=900 if tier == "quick" else 3000))
     cs.append(Case("persist an alternatively mapped subclass behind base-typed fields", drawing_case(), key="drawing", validate=0, timeout=900))
+    cs.append(Case("persist an alternatively mapped container and its subclasses inside a holder", bag_case(), key="bag", validate=0, timeout=900))
+    cs.append(Case("persist mutual one-to-one references that are not annotated Optional", car_case(), key="car", validate=0, timeout=900))
     cs.append(Case("persist helper objects built by an alternative mapping", album_case(2 if tier == "quick" else 3), key="album", validate=0, timeout=900))
     cs.append(Case("persist short-lived objects converted with one state", streaming_case(3 if tier == "quick" else 4), key="streaming", validate=0, timeout=900))
     return cs
